@@ -39,17 +39,17 @@ PROP_WORLDS = {
     "C05": [("broker", 1.0)],
     "C15": [("broker", 1.0)],
     "C06": [("data", 1.0)],
-    "C12": [("clock", 1.0)],
-    "C13": [("clock", 1.0)],
-    "C16": [("signal", 1.0)],
+    "C12": [("clock", 0.7), ("session", 0.3)],
+    "C13": [("clock", 0.7), ("session", 0.3)],
+    "C16": [("signal", 0.5), ("session", 0.5)],
     "C07": [("pair", 1.0)],
     "C08": [("session", 1.0)],
     "C14": [("session", 1.0)],
     "C18": [("repeat", 1.0)],
-    "C19": [("session", 0.6), ("rebal", 0.4)],
-    "C09": [("rebal", 0.6), ("session", 0.4)],
-    "C10": [("rebal", 0.5), ("session", 0.5)],
-    "C11": [("rebal", 0.5), ("session", 0.5)],
+    "C19": [("session", 1.0)],
+    "C09": [("session", 1.0)],
+    "C10": [("session", 1.0)],
+    "C11": [("session", 1.0)],
 }
 
 LEVELS = {
